@@ -510,6 +510,25 @@ def build(inp) -> Case:
                     hq.append(f"cm:{q(ts[h[1]])}")
             lines.append(line("gcm", **src, ts=ql(ts), ogcm=il(gm.reshape(-1).tolist()), ocm=il(om.reshape(-1).tolist()),
                               qs="[" + ",".join(hq) + "]"))
+        # thresholds as an N-d array: group_cm has shape (G,) + X + (2, 2) and entry [g, x] is the matrix of group g at
+        # threshold x, i.e. the 1-d answer (judged against the model above) reshaped
+        if G > 0 and T >= 1 and gm.shape == (G, T, 2, 2):
+            shapes = [(T, 1), (1, T)] + ([(2, T // 2)] if T % 2 == 0 and T >= 4 else []) + ([(3, T // 3)] if T % 3 == 0 and T >= 6 else [])
+            for shp in shapes:
+                tnd = np.asarray(ts, dtype=float).reshape(shp)
+                rnd = common.call(gs.group_cm, tnd)
+                evals += 1
+                wantnd = gm.reshape((G,) + shp + (2, 2))
+                if rnd[0] == "exc":
+                    fail("group-cm", f"group_cm(thresholds of shape {shp}) raised {rnd[1]}: {rnd[2]}", "group-cm-nd-raises")
+                elif np.asarray(rnd[1]).shape != wantnd.shape or not np.array_equal(np.asarray(rnd[1]), wantnd):
+                    fail("group-cm", f"group_cm(thresholds of shape {shp}) has shape {np.asarray(rnd[1]).shape} / entries "
+                         f"{_short(np.asarray(rnd[1]).reshape(-1).tolist(), 12)}; the same thresholds as a 1-d array give (reshaped to "
+                         f"{wantnd.shape}) {_short(wantnd.reshape(-1).tolist(), 12)}", "group-cm-nd")
+                rfn = common.call(gs.group_fnr, tnd)
+                w1 = common.call(gs.group_fnr, ts)
+                if rfn[0] == "exc" or (w1[0] == "ok" and not _eq_nan(rfn[1], np.asarray(w1[1]).reshape((G,) + shp))):
+                    fail("groupwise", f"group_fnr(thresholds of shape {shp}) differs from the 1-d answer reshaped", "group-metric-nd")
         # the twelve group metrics against the independent per-group objects
         for name in RATES:
             r = common.call(getattr(gs, "group_" + name), ts)
